@@ -1,6 +1,7 @@
 import CoapVerif.Lemmas.Replay
 import CoapVerif.Lemmas.ReplayEndp
 import CoapVerif.Lemmas.ReplayReqNonce
+import CoapVerif.Model.ReplayB2
 import CoapVerif.Spec.Replay
 /-
 C15 — OSCORE never accepts a replay or reuses a nonce; forgeries leave no trace.
@@ -422,6 +423,78 @@ theorem nonce_never_reused (cfg : Cfg) (f start : Nat) (ops : List NOp) (hs : st
 accepted again and answered under the same nonce (RFC 8613 7.5.1 — a deployment that restarts needs B.1.2 or a persisted
 window; witness below).  With B.1.2 on, `accept_at_most_once_across_restarts` (under `EchoFresh`) gives distinct accepted
 Partial IVs over all lives; lifting `request_nonce_used_at_most_once` over restarts along it is not done. -/
+
+/-! ### Appendix B.2, client side: a response that does not verify leaves the security context untouched
+
+`ReplayB2.recvForged`: the response branch of `coap_oscore_decrypt_pdu` while `b_2_step != NONE` takes the kid context of
+the OSCORE option — not authenticated — and re-derives the context (`oscore_update_ctx`) before the response is verified.
+After fix 74ce665 every error exit puts `b_2_step` and the ID Context (with it Sender Key, Recipient Key, Common IV)
+back. -/
+
+theorem b2Update_cases {s s1 : ReplayB2.B2} {kc : Option (List Nat)} (h : ReplayB2.b2Update s kc = some s1) :
+    s1.step = 3 ∨ (s1.step = 5 ∧ s1.idctx = s.idctx) := by
+  unfold ReplayB2.b2Update at h
+  cases kc with
+  | none => simp at h; subst h; right; exact ⟨rfl, rfl⟩
+  | some w =>
+    dsimp only at h
+    cases hu : ReplayB2.unwrap w with
+    | none => rw [hu] at h; cases h
+    | some k =>
+      rw [hu] at h
+      dsimp only at h
+      by_cases hk : k ≠ s.idctx
+      · rw [if_pos hk] at h; injection h with h; subst h; left; rfl
+      · rw [if_neg hk] at h; injection h with h; subst h; right; exact ⟨rfl, rfl⟩
+
+/-- **A forged Appendix B.2 message leaves the context untouched**: whatever the step of the exchange (also `NONE`),
+whatever the ID Context, whatever the kid context field of the OSCORE option (absent, empty, not a CBOR byte string, any
+byte string, the current ID Context itself) — a response that does not verify is dropped and `b_2_step` and the ID
+Context (hence every key derived from it) are exactly as before. -/
+theorem forged_b2_response_no_trace (s : ReplayB2.B2) (kc : Option (List Nat)) :
+    (ReplayB2.recvForged s kc).1 = s ∧ (ReplayB2.recvForged s kc).2 = .drop := by
+  unfold ReplayB2.recvForged
+  by_cases h0 : s.step = 0
+  · rw [if_pos h0]; exact ⟨rfl, rfl⟩
+  · rw [if_neg h0]
+    dsimp only
+    cases hu : ReplayB2.b2Update s kc with
+    | none => exact ⟨rfl, rfl⟩
+    | some s1 =>
+      dsimp only
+      refine ⟨?_, rfl⟩
+      rcases b2Update_cases hu with h3 | ⟨h5, hid⟩
+      · rw [if_pos h3]
+      · have : ¬ s1.step = 3 := by rw [h5]; decide
+        rw [if_neg this]
+        dsimp only
+        rw [hid]
+
+/-- any number of forged responses, any interleaving of kid contexts: every one is dropped and the state never moves -/
+theorem forged_b2_history_no_trace (kcs : List (Option (List Nat))) : ∀ s : ReplayB2.B2,
+    ∀ x ∈ ReplayB2.run s kcs, x = (Verdict.drop, s) := by
+  induction kcs with
+  | nil => intro s x hx; cases hx
+  | cons kc r ih =>
+    intro s x hx
+    obtain ⟨h1, h2⟩ := forged_b2_response_no_trace s kc
+    simp only [ReplayB2.run, List.mem_cons] at hx
+    rw [h1, h2] at hx
+    rcases hx with rfl | hx
+    · rfl
+    · exact ih s x hx
+
+-- the defect: what the code did before the fix with ONE forged response carrying the kid context c0 … c7 (ID1 =
+-- 11 22 … 88): ID Context c0 … c7 11 … 88, step 3 — and the next one prepends again
+example : ReplayB2.recvForgedUnpatched ⟨1, [0x11, 0x22, 0x33, 0x44, 0x55, 0x66, 0x77, 0x88]⟩
+    (some [0x48, 0xc0, 0xc1, 0xc2, 0xc3, 0xc4, 0xc5, 0xc6, 0xc7]) =
+    ⟨3, [0xc0, 0xc1, 0xc2, 0xc3, 0xc4, 0xc5, 0xc6, 0xc7, 0x11, 0x22, 0x33, 0x44, 0x55, 0x66, 0x77, 0x88]⟩ := by decide
+example : ReplayB2.run ⟨1, [0x11, 0x22]⟩ [some [0x42, 0xc0, 0xc1], none, some [0x5f, 0x01], some [], some [0x42, 0x11, 0x22]] =
+    [(.drop, ⟨1, [0x11, 0x22]⟩), (.drop, ⟨1, [0x11, 0x22]⟩), (.drop, ⟨1, [0x11, 0x22]⟩), (.drop, ⟨1, [0x11, 0x22]⟩),
+     (.drop, ⟨1, [0x11, 0x22]⟩)] := by decide
+-- the CBOR unwrapping: short form, one-byte length form, truncated, not enough bytes
+example : ReplayB2.unwrap [0x42, 7, 8] = some [7, 8] ∧ ReplayB2.unwrap [0x58, 2, 7, 8, 9] = some [7, 8] ∧
+    ReplayB2.unwrap [0x5f, 1] = none ∧ ReplayB2.unwrap [0x43, 7, 8] = none ∧ ReplayB2.unwrap [] = none := by decide
 
 /-! ### Non-vacuity: concrete histories (the minimal witnesses of the defects fixed in libcoap, see design/C15.md) -/
 
